@@ -134,6 +134,16 @@ CLAIMS = {
           'Tie: make_model_image on tables with rows inside / on the edge / far off the image (incl. row 0 off-image, windows ending exactly at the image edge), per-row model_shape (odd/even), local_bkg, name maps, unit-ful fluxes, 5 model families, compared pixel-wise with the Lean accumulation of the oracle values; reorder/split relations and input immutability on the implementation; PSFPhotometry model/residual images.',
   'note': 'Trusted: Lean kernel + standard axioms; AST extractor of the loop skeleton; astropy model evaluation; float accumulation order (1e-12).',
  },
+ 'C16': {
+  'design_ref': 'DESIGN.md §5 C16',
+  'technique': 'Lean 4 theorems on a model of ApertureStats for one position (pixel multiset, statistics, centroid re-basing; overlap geometry from the generated get_overlap_slices) + correspondence and direct-statistics oracle',
+  'text': 'Proved in Lean: the centre-method pixel multiset is exactly {pixels of box ∩ image whose centre is in the aperture, unmasked, finite, not clipped} with the local background subtracted '
+          '(centreVals_spec, overlap_pixels_spec - reusing the C01/C02 slice theorems); count, sum, mean·n, min, max are those of that multiset, min/max are attained and the variance is non-negative (stats_spec); nothing is measured iff the box misses the image (no_overlap_iff, stats_none_iff); '
+          'the centre of mass computed in the clipped cut-out and re-based by the START OF THE OVERLAP SLICES is the centre of mass in image coordinates, whatever the aperture bounding box is (centroid_rebase). [param] the sigma-clip decision is a parameter; std/MAD/biweight are computed outside Lean on the model multiset. '
+          'Tie: ApertureStats on dyadic images with NaN/inf, masks, errors, local background, 6 aperture classes, positions inside / overhanging each edge / off-image, 3 sum methods, compared with the model (n, min, max, mean, var, median, sum, area, centroid) and with direct numpy statistics, aperture_photometry and area_overlap; '
+          'sigma clipping, per-position local background, batch==single and sky==to_pixel on the implementation.',
+  'note': 'Trusted: Lean kernel + standard axioms; hand model tied by differential testing; astropy SigmaClip; moment-based shape columns beyond the centroid not modelled. Cases whose aperture weights are non-finite are C01 known finding F20 and are skipped here.',
+ },
 }
 
 _todo = 'check not built yet in this round (see DESIGN.md §10 build order); not claimed until its machinery is committed'
